@@ -36,11 +36,15 @@ theorem C05_dispatch : ∀ b ∈ Generated.builtins, b ∈ Generated.dispatch :=
 
 theorem fromTokens_nonempty (ts : List Tok) (c : Command) (h : fromTokens ts = .ok c) : c.tokens ≠ [] := by
   unfold fromTokens at h
-  split at h
-  rename_i ts' ty v _
-  split at h
-  · simp at h
-  · rename_i tf rs _
+  simp only at h
+  generalize fromLoop ((splitAttached ts).length + 1) (splitAttached ts, [], []) = fl at h
+  obtain ⟨ts', ty, v⟩ := fl
+  simp only at h
+  cases hr : tokensToRedirections ts' with
+  | error e => simp [hr] at h
+  | ok q =>
+    obtain ⟨tf, rs⟩ := q
+    simp only [hr] at h
     split at h
     · simp at h
     · rename_i hne
